@@ -232,6 +232,46 @@ func exprtabMinify(sample func(total int) bool) []packCase {
 	for _, d := range dead {
 		g.add("stmt:"+d, g.fill(d))
 	}
+	// 10. comparisons with zero (and with each other) in boolean contexts: the minifier drops them only for operands it
+	// knows to be int32/uint32; every other operand may be falsy without being zero
+	{
+		operands := []string{"%V >>> 0", "%V | 0", "~%V", "%C ? %V >>> 0 : %W", "%C ? %W : %V >>> 0", "%C ? %V >>> 0 : %V | 0", "%C && %V >>> 0", "%C || %V >>> 0", "(%W, %V >>> 0)", "%C ? %W : %W", "%V >>> 0 || %W", "(%V >>> 0) + %W", "%W"}
+		vals := []string{"0", "1", "-1", "null", "void 0", "NaN", `""`, `"0"`, "false", "4294967296", "-0", "0.5"}
+		cmps := []string{"!== 0", "=== 0", "!= 0", "== 0"}
+		ctxs := []string{"() => { if (%E) return 1; return 2; }", "() => !(%E)", "() => (%E) ? 1 : 2", "() => (%E) && $(%N, 1)", "() => { var n = 0; while (%E) { if (++n > 1) break; } return n; }", "() => (%E) || $(%N, 1)"}
+		k := 0
+		for oi, op := range operands {
+			for vi, v := range vals {
+				w := vals[(vi*5+oi*3+1)%len(vals)]
+				c := []string{"true", "false"}[(oi+vi)%2]
+				for ci, cmp := range cmps {
+					k++
+					e := strings.NewReplacer("%V", "v", "%W", "w", "%C", "c").Replace(op)
+					expr := "(" + e + ") " + cmp
+					body := strings.ReplaceAll(strings.ReplaceAll(ctxs[(k+ci)%len(ctxs)], "%E", expr), "%N", fmt.Sprint(900000+k))
+					g.add("boolctx:"+op+cmp, fmt.Sprintf("() => { var v = %s, w = %s, c = %s; return (%s)(); }", v, w, c, body))
+				}
+			}
+		}
+	}
+	// 11. loops whose first statement is an if with a jump in one branch (loop-condition rewrites), with labelled jumps that
+	// target an enclosing statement rather than the loop itself
+	{
+		jumps := []string{"break", "break outer", "continue outer", "continue", "break blk", "return 7"}
+		shapes := []string{"if (%C) %Y; else %J;", "if (%C) %J; else %Y;", "if (%C) %J; %Y;", "if (!%C) %J; %Y;", "if (%C) { %Y; } else { %J; }", "if (%C) { %J; }"}
+		loops := []string{"for (;;) { %S }", "for (; n < 4;) { %S }", "while (true) { %S }", "do { %S } while (n < 4);", "for (var z = 0; z < 4; z++) { %S }"}
+		id := 0
+		for _, j := range jumps {
+			for _, sh := range shapes {
+				for li, lp := range loops {
+					id++
+					st := strings.NewReplacer("%C", "n++ < 2", "%Y", fmt.Sprintf("$(%d, \"y\", n)", 910000+id), "%J", j).Replace(sh)
+					body := strings.ReplaceAll(lp, "%S", st)
+					g.add("loopjump:"+j+":"+sh+":"+fmt.Sprint(li), fmt.Sprintf("() => { var n = 0, rounds = 0; blk: { outer: for (var r = 0; r < 3; r++) { rounds++; if (n > 20) break; %s $(%d, \"after-inner\", n); } $(%d, \"after-outer\", rounds); } return [n, rounds]; }", body, 920000+id, 930000+id))
+				}
+			}
+		}
+	}
 	return g.cases
 }
 
